@@ -15,7 +15,7 @@ from harness import runs, runcommon
 from harness.drive import f2b
 
 ID = "C17"
-THEOREM_MODULES = ["JF.Props.C17", "JF.Props.C17Float", "JF.Props.SystemInv"]
+THEOREM_MODULES = ["JF.Props.C17", "JF.Props.C17Float", "JF.Props.SystemInv", "JF.Props.C17System"]
 NEEDS_GEN = True
 COMPONENTS = ["time"]
 ASSUMPTIONS = ["theorems are the exact (rational) reading: t_k = k*interval, sample count = #{k | t_k < T_end}, sampled out-state fully "
@@ -98,6 +98,24 @@ def run(ctx):
                 mexp.append(f"{f2b(ets[i][0])} {f2b(ets[i][1])}")
                 minfo.append((meta_["ini"], meta_["seed"], i))
         end_sec = meta_["config"].get("FinalTimeEndOfRunEventHandler")
+        # hypothesis `ClockCands` of JF.Props.C17System measured on the run: the candidate time the sampling handler returns at its j-th
+        # request (j-th leg in which the activator hands it out) is the model clock at j; every candidate of the end-of-run handler is
+        # the configured end time
+        job_ = tr.get("job") or {}
+        if not (job_.get("resume") or job_.get("mp") or meta_.get("number_cores")):
+            j = 0
+            for i, leg in enumerate(tr["legs"]):
+                for h, t in leg["times"].items():
+                    hname = meta_["handlers"][int(h)][1]
+                    if hname == "FixedIntervalSamplingEventHandler":
+                        j += 1
+                        mreq.append(f"clock {f2b(delta)} {1 if zf else 0} {j}")
+                        mexp.append(f"{f2b(float(t[0]))} {f2b(float(t[1]))}")
+                        minfo.append((meta_["ini"], meta_["seed"], f"leg {i}: candidate of request {j} (ClockCands)"))
+                    elif hname == "FinalTimeEndOfRunEventHandler" and end_sec:
+                        mreq.append(f"end_time {f2b(float(end_sec['end_of_run_time']))}")
+                        mexp.append(f"{f2b(float(t[0]))} {f2b(float(t[1]))}")
+                        minfo.append((meta_["ini"], meta_["seed"], f"leg {i}: end-of-run candidate (ClockCands)"))
         if tr["end"] == "EndOfRun" and end_sec:
             te = float(end_sec["end_of_run_time"])
             fuel = int(te / delta) + 5
@@ -114,7 +132,7 @@ def run(ctx):
     rep = ctx.model("time", mreq) if mreq else []
     for line, e, r, inf in zip(mreq, mexp, rep, minfo):
         if e is not None and e != r:
-            ctx.disagree("run.sample-times" if line.startswith("clock") else "run.sample-count",
+            ctx.disagree("run.sample-times" if line.startswith("clock") else ("run.end-of-run-candidate" if line.startswith("end_time") else "run.sample-count"),
                          {"ini": inf[0], "seed": inf[1], "leg": inf[2], "request": line}, e, r)
         ctx.count("run-model-comparisons")
 
